@@ -79,7 +79,11 @@ _MIASM_EXPORT unsigned int cnttrailzeros(uint64_t size, uint64_t src);
 			fprintf(stderr, "Should not happen\n");		\
 			exit(EXIT_FAILURE);				\
 		}							\
-		r = a/b;						\
+		/* INT_MIN / -1 traps on x86: the quotient wraps */	\
+		if (b == -1)						\
+			r = (int ## sizeA ## _t)(0 - (uint ## sizeA ## _t)a); \
+		else							\
+			r = a/b;					\
 		return r;						\
 	}
 
@@ -92,7 +96,11 @@ _MIASM_EXPORT unsigned int cnttrailzeros(uint64_t size, uint64_t src);
 			fprintf(stderr, "Should not happen\n");		\
 			exit(EXIT_FAILURE);				\
 		}							\
-		r = a%b;						\
+		/* INT_MIN % -1 traps on x86: the remainder is 0 */	\
+		if (b == -1)						\
+			r = 0;						\
+		else							\
+			r = a%b;					\
 		return r;						\
 	}
 
